@@ -31,6 +31,10 @@ pub static mut REQ_HINT: usize = 0;
 pub static mut FAIL_AT: u64 = 0;
 pub static mut REQ_COUNT: u64 = 0;
 pub static mut ORACLE_HITS: u32 = 0;
+/// the vector the running operation was invoked on (address of its handle) and a reader for it:
+/// -> (capacity(), as_ptr() as usize, size_of::<T>()). Used only at the moment a request is refused.
+pub static mut PROBE_PTR: usize = 0;
+pub static mut PROBE_FN: Option<unsafe fn(usize) -> (usize, usize, usize)> = None;
 static mut BLKS: [Blk; MAXBLK] = [NOBLK; MAXBLK];
 static mut NBLK: usize = 0;
 static mut FOREIGN: [usize; MAXFOREIGN] = [0; MAXFOREIGN];
@@ -246,6 +250,16 @@ unsafe impl GlobalAlloc for Checking {
         }
         let q = tracked_new(new_size, l.align(), b.req);
         if q.is_null() {
+          // the request was refused: the block is exactly what it was, so the capacity the vector reports
+          // right now must still fit into it (a capacity recorded before the request was granted does not)
+          if PROBE_PTR != 0 && *(PROBE_PTR as *const usize) == p as usize {
+            if let Some(f) = PROBE_FN {
+              let (cap, data, esz) = f(PROBE_PTR);
+              if data >= b.user && (data - b.user).saturating_add(cap.saturating_mul(esz)) > b.size {
+                oracle(format_args!("capacity-exceeds-block-at-refusal blk={} size={} capacity={}", b.no, b.size, cap));
+              }
+            }
+          }
           return q;
         }
         core::ptr::copy_nonoverlapping(p, q, b.size.min(new_size));
